@@ -300,6 +300,9 @@ def run_order(ctx):
 
 
 def run(ctx):
+    # the `.not(..)` clause of the statement: an invalidated run must not advance (sub-rule shared with C02)
+    from rules import C02 as _c02
+    ctx.guard("loop-prologue", lambda: _c02.run_prologue(ctx))
     ctx.guard("capture-guard", lambda: run_guards(ctx))
     ctx.guard("total", lambda: run_total(ctx))
     ctx.guard("negation-order", lambda: run_order(ctx))
